@@ -6,6 +6,7 @@
 -/
 import StVerif.Lemmas.UtfString
 import StVerif.Lemmas.UtfLen
+import StVerif.Lemmas.KernelBridge
 
 namespace StVerif.Props.C03
 open StVerif StVerif.Utf StVerif.Generated StVerif.Lemmas.Utf
@@ -84,5 +85,44 @@ theorem string_to_total (dst : Enc) (subst : Bool) (xs : List Nat) (hb : Bytes x
 example : convert .utf8 .utf16 .checkValidity true (some [0xF4, 0x90, 0x80, 0x80]) = .throw .unicodeError := by decide
 example : convert .utf8 .utf16 .substituteInvalid true (some [0xF4, 0x90, 0x80, 0x80]) = .ok [0xFFFD] := by decide
 example : convert .utf16 .utf8 .substituteInvalid true (some [0xD800]) = .ok [0xEF, 0xBF, 0xBD] := by decide
+
+/-! ### tie to the source: the decoding steps as translated from the C++ on every run
+
+`Generated.Kernels.extract_utf8 / extract_utf16` are written by tools/gen_kernels.py from the clang AST of
+include/st_utf_conv_priv.h; a load is `rd mem i`, a fault outside the source.  These theorems are about those
+translated functions, so they are re-checked against what the code says now. -/
+
+/-- every decoding step started inside the source stays inside it: no load at or beyond `end`, for every source and
+    every position (the machine-level half of "never reads outside the input" that the list model cannot state) -/
+theorem decode_steps_read_inside (mem : List Nat) (p : Nat) (hp : p < mem.length) :
+    StVerif.Cxx.isOk (Kernels.extract_utf8 mem p mem.length) = true ∧
+    StVerif.Cxx.isOk (Kernels.extract_utf16 mem p mem.length) = true :=
+  ⟨KernelBridge.extract_utf8_ok mem p hp, KernelBridge.extract_utf16_ok mem p hp⟩
+
+/-- every step advances by at least one unit and never past the end, so each `while (sp < ep)` loop over it terminates
+    within `size` iterations -/
+theorem decode_steps_progress (mem : List Nat) (p v p' : Nat) (hp : p < mem.length) :
+    (Kernels.extract_utf8 mem p mem.length = .ok (v, p') → p < p' ∧ p' ≤ mem.length) ∧
+    (Kernels.extract_utf16 mem p mem.length = .ok (v, p') → p < p' ∧ p' ≤ mem.length) :=
+  ⟨fun h => let ⟨a, b, _⟩ := KernelBridge.extract_utf8_sound mem p v p' hp h; ⟨a, b⟩,
+   fun h => let ⟨a, b, _⟩ := KernelBridge.extract_utf16_sound mem p v p' hp h; ⟨a, b⟩⟩
+
+/-- the whole decoding loop over the translated steps is the model's decoder (about which every theorem above is
+    proved), for every source -/
+theorem translated_decoders_are_model (mem : List Nat) :
+    KernelBridge.stepLoop Kernels.extract_utf8 mem (mem.length + 1) 0 = .ok (decodeUtf8 mem) ∧
+    KernelBridge.stepLoop Kernels.extract_utf16 mem (mem.length + 1) 0 = .ok (decodeUtf16 mem) :=
+  ⟨KernelBridge.utf8_loop_eq mem, KernelBridge.utf16_loop_eq mem⟩
+
+/-- the translated per-character sizing and writing functions are the model's: what the measuring pass counts is what
+    the filling pass stores, in the code as translated now -/
+theorem translated_writers_are_model (ch : Nat) :
+    Kernels.utf8_measure ch = .ok (utf8Measure ch) ∧ Kernels.utf16_measure ch = .ok (utf16Measure ch) ∧
+    Kernels.write_utf8 ch = .ok (match writeUtf8 ch with | some us => ((0 : Int), us) | none => ((4 : Int), [])) ∧
+    Kernels.write_utf16 ch = .ok (match writeUtf16 ch with | some us => ((0 : Int), us) | none => ((4 : Int), [])) :=
+  ⟨KernelBridge.utf8_measure_eq ch, KernelBridge.utf16_measure_eq ch, KernelBridge.write_utf8_eq ch, KernelBridge.write_utf16_eq ch⟩
+
+example : KernelBridge.stepLoop Kernels.extract_utf8 [0x41, 0xE2, 0x82, 0xAC, 0xF0, 0x9F] 7 0 = .ok [0x41, 0x20AC, 0x400001, 0x400003] := by
+  decide
 
 end StVerif.Props.C03
